@@ -416,7 +416,7 @@ def _generator_as_list(fi):
 def call_closure(self, cl, ca, pos, kw, node, fr):
     fi = cl.fi
     bound = self.bind_args(fi, pos, kw, fr)
-    self.emit('call', node, fr, name=fi.short, resolved=fi, args=pos, kwargs=kw, bound=bound, external=False,
+    ev = self.emit('call', node, fr, name=fi.short, resolved=fi, args=pos, kwargs=kw, bound=bound, external=False,
               closure=True)
     depth = fr.depth + 1
     if depth > self.max_depth + 2 or any(f.fi is fi for f in self.frames):
@@ -426,9 +426,16 @@ def call_closure(self, cl, ca, pos, kw, node, fr):
     env.update(bound)
     for p in fi.all_params():
         env.setdefault(p, Term.of(Atom('missingarg', p)))
+    # (the body of a local function is part of the function that defines it: handed to a helper and called from there, it
+    # runs at the depth it would have when called in place)
+    if fr.depth > getattr(cl, 'def_depth', fr.depth):
+        depth = cl.def_depth
     f2 = Frame_(fi, env, cl.self_term, cl.self_cls, len(self.pc), depth,
                 fr.stack + ((fr.fi.short, getattr(node, 'lineno', 0)),))
     ret, live = self._run_frame(f2)
+    if ev is not None:
+        ev.data['ret'] = ret
+        ev.data['inlined'] = True
     # exception propagation, as for package functions: the caller continues only where the closure returns
     okc = T.mk_or([c for c, _ in f2.returns] + [live])
     if okc.key != TRUE.key:
